@@ -1586,6 +1586,12 @@ mod v_wire_roundtrip {
         tcp_rt!(mss = true, ws = true, sackperm = true, sack = 0, ts = true, pl = 4);
     }
 
+    // @harness props=C06 cfg=KW tier=q to=900 mem=6 unwind=7 opts=nomem covers=1 funcs=wire::tcp::Repr::emit;wire::tcp::Repr::parse;wire::tcp::TcpOption::emit;wire::tcp::TcpOption::parse bounds=MSS+WS+SACK-permitted_without_timestamps_(the_SYN_the_stack_sends_by_default:_9_option_octets,_3_padding_octets);_4_payload_bytes
+    #[kani::proof]
+    pub(crate) fn rt_tcp_syn_nots() {
+        tcp_rt!(mss = true, ws = true, sackperm = true, sack = 0, ts = false, pl = 4);
+    }
+
     // @harness props=C06 cfg=KW tier=q to=900 mem=6 unwind=7 opts=nomem covers=1 funcs=wire::tcp::Repr::emit;wire::tcp::Repr::parse;wire::tcp::TcpOption::emit;wire::tcp::TcpOption::parse bounds=3_SACK_blocks+timestamp;_6_payload_bytes
     #[kani::proof]
     pub(crate) fn rt_tcp_sack3_ts() {
@@ -1604,7 +1610,7 @@ mod v_wire_roundtrip {
         tcp_rt!(mss = false, ws = true, sackperm = false, sack = 0, ts = false, pl = 6);
     }
 
-    // @harness props=C06 cfg=KW tier=t to=900 mem=6 unwind=7 opts=nomem covers=1 funcs=wire::tcp::Repr::emit;wire::tcp::Repr::parse bounds=SACK-permitted_only;_no_payload
+    // @harness props=C06 cfg=KW tier=q to=900 mem=6 unwind=7 opts=nomem covers=1 funcs=wire::tcp::Repr::emit;wire::tcp::Repr::parse bounds=SACK-permitted_only;_no_payload
     #[kani::proof]
     pub(crate) fn rt_tcp_sackperm() {
         tcp_rt!(mss = false, ws = false, sackperm = true, sack = 0, ts = false, pl = 0);
@@ -2097,12 +2103,15 @@ mod v_wire_roundtrip {
     pub(crate) fn rt_sixlowpan_ext_header_inline() {
         let repr = SixlowpanExtHeaderRepr { ext_header_id: any_ext_header_id(), next_header: SixlowpanNextHeader::Uncompressed(any_proto()), length: kani::any() };
         assert!(repr.buffer_len() == 3, "prop:c06_parse_of_emit_is_identity");
-        let mut b1 = [0u8; 3];
-        let mut b2: [u8; 3] = kani::any();
-        repr.emit(&mut SixlowpanExtHeaderPacket::new_unchecked(&mut b1[..]));
-        repr.emit(&mut SixlowpanExtHeaderPacket::new_unchecked(&mut b2[..]));
+        // the header announces `length` octets of extension-header content, which follow it in the frame and which
+        // a checked view requires to be present (bound: length <= 8)
+        kani::assume(repr.length <= 8);
+        let mut b1 = [0u8; 3 + 8];
+        let mut b2: [u8; 3 + 8] = kani::any();
+        repr.emit(&mut SixlowpanExtHeaderPacket::new_unchecked(&mut b1[..3]));
+        repr.emit(&mut SixlowpanExtHeaderPacket::new_unchecked(&mut b2[..3]));
         indep!(b1, b2, 3);
-        let p = SixlowpanExtHeaderPacket::new_checked(&b1[..]);
+        let p = SixlowpanExtHeaderPacket::new_checked(&b1[..3 + repr.length as usize]);
         assert!(p.is_ok(), "prop:c06_emitted_packet_passes_new_checked");
         let back = SixlowpanExtHeaderRepr::parse(&p.unwrap());
         assert!(back == Ok(repr), "prop:c06_parse_of_emit_is_identity");
@@ -2114,16 +2123,19 @@ mod v_wire_roundtrip {
     pub(crate) fn rt_sixlowpan_ext_header_compressed() {
         let repr = SixlowpanExtHeaderRepr { ext_header_id: any_ext_header_id(), next_header: SixlowpanNextHeader::Compressed, length: kani::any() };
         assert!(repr.buffer_len() == 2, "prop:c06_parse_of_emit_is_identity");
-        let mut b1 = [0u8; 2];
-        let mut b2: [u8; 2] = kani::any();
-        repr.emit(&mut SixlowpanExtHeaderPacket::new_unchecked(&mut b1[..]));
-        repr.emit(&mut SixlowpanExtHeaderPacket::new_unchecked(&mut b2[..]));
+        // the header announces `length` octets of extension-header content, which follow it in the frame and which
+        // a checked view requires to be present (bound: length <= 8)
+        kani::assume(repr.length <= 8);
+        let mut b1 = [0u8; 2 + 8];
+        let mut b2: [u8; 2 + 8] = kani::any();
+        repr.emit(&mut SixlowpanExtHeaderPacket::new_unchecked(&mut b1[..2]));
+        repr.emit(&mut SixlowpanExtHeaderPacket::new_unchecked(&mut b2[..2]));
         indep!(b1, b2, 2);
-        let p = SixlowpanExtHeaderPacket::new_checked(&b1[..]);
+        let p = SixlowpanExtHeaderPacket::new_checked(&b1[..2 + repr.length as usize]);
         assert!(p.is_ok(), "prop:c06_emitted_packet_passes_new_checked");
         let back = SixlowpanExtHeaderRepr::parse(&p.unwrap());
         assert!(back == Ok(repr), "prop:c06_parse_of_emit_is_identity");
-        kani::cover!(matches!(back, Ok(SixlowpanExtHeaderRepr { ext_header_id: SixlowpanExtHeaderId::RoutingHeader, length: 30, .. })), "routing header of 30 bytes");
+        kani::cover!(matches!(back, Ok(SixlowpanExtHeaderRepr { ext_header_id: SixlowpanExtHeaderId::RoutingHeader, length: 8, .. })), "routing header of 8 bytes");
     }
 
     // ------------------------------------------------------------------ 6LoWPAN UDP NHC
@@ -2227,8 +2239,16 @@ mod v_wire_roundtrip {
                 4 => ([0xfe, 0x80, 0, 0, 0, 0, 0, 0, r[8], r[9], r[10], 0x11, r[12], r[13], r[14], r[15]], None),
                 5 => ([0x20, r[1], r[2], r[3], r[4], r[5], r[6], r[7], r[8], r[9], r[10], r[11], r[12], r[13], r[14], r[15]], None),
                 6 => ([0xff, 0x02, 0, 0, 0, 0, 0, 0, 0, 0, 0, 0, 0, 0, 0, r[15]], None),
-                7 => ([0xff, r[1], 0, 0, 0, 0, 0, 0, 0, 0, 0, 0, 0, 0x80 | r[13], r[14], r[15]], None),
-                8 => ([0xff, r[1], 0, 0, 0, 0, 0, 0, 0, 0, 0, 0x80 | r[11], r[12], r[13], r[14], r[15]], None),
+                7 => {
+                    // every address of the 32-bit form that is not of the 8-bit form ff02::00XX
+                    kani::assume(!(r[1] == 2 && r[13] == 0 && r[14] == 0));
+                    ([0xff, r[1], 0, 0, 0, 0, 0, 0, 0, 0, 0, 0, 0, r[13], r[14], r[15]], None)
+                }
+                8 => {
+                    // every address of the 48-bit form that is not of the 32-bit form (octets 11, 12 not both zero)
+                    kani::assume(r[11] != 0 || r[12] != 0);
+                    ([0xff, r[1], 0, 0, 0, 0, 0, 0, 0, 0, 0, r[11], r[12], r[13], r[14], r[15]], None)
+                }
                 _ => ([0xff, r[1], 0x80 | r[2], r[3], r[4], r[5], r[6], r[7], r[8], r[9], r[10], r[11], r[12], r[13], r[14], r[15]], None),
             };
             (Ipv6Address::from_octets(a), ll)
@@ -2315,7 +2335,7 @@ mod v_wire_roundtrip {
         iphc_rt!(src = 5, dst = 4, nh_inline = false, hl_inline = false, n = 26);
     }
 
-    // @harness props=C06 cfg=KW tier=t to=600 mem=8 unwind=20 opts=nomem covers=1 funcs=wire::sixlowpan::iphc::Repr::emit;wire::sixlowpan::iphc::Repr::parse bounds=global_src;_dst_ffXX::XX:XXXX:XXXX_(48_bits_inline)
+    // @harness props=C06 cfg=KW tier=q to=600 mem=8 unwind=20 opts=nomem covers=1 funcs=wire::sixlowpan::iphc::Repr::emit;wire::sixlowpan::iphc::Repr::parse bounds=global_src;_dst_ffXX::XX:XXXX:XXXX_(48_bits_inline)
     #[kani::proof]
     pub(crate) fn rt_iphc_global_mcast48() {
         iphc_rt!(src = 5, dst = 8, nh_inline = false, hl_inline = false, n = 24);
